@@ -151,6 +151,45 @@ def run(ctx):
                     viol.append({"what": "a header built through the mapping API serialises to an ill-framed block: " + "; ".join(errs),
                                  "input": {"version": v, "id": bid, "data": data, "entry_point_style": style, "insertion": ins},
                                  "expected": "framing rules", "observed": kbt[:100]})
+    # copies of a header (copy.copy / deepcopy / pickle) and a Blocks object moved to another header: the serialisation of
+    # the copy must be that of a header built from scratch with the same values (block size of ITS version, not of the original)
+    import copy
+    import pickle
+
+    def rebuilt(hx):
+        f = tr31.Header()
+        f.load(hx.version_id + "0000" + hx.key_usage + hx.algorithm + hx.mode_of_use + hx.version_num + hx.exportability + "00" + hx.reserved)
+        for bid, data in list(hx.blocks.items()):
+            f.blocks[bid] = data
+        return f
+
+    ncopies = 0
+    for v1, v2 in (("B", "D"), ("D", "B"), ("A", "D"), ("D", "C"), ("C", "A")):
+        for prof in ("few", "boundary", "ws_aligned"):
+            c = t.gen_case(rng, version=v1, profile=prof, keylen=16, mask=None, algorithm="T")
+            c["kbpk"] = rng.randbytes(16 if "A" in (v1, v2) or "C" in (v1, v2) else 24)
+            h = t.impl_header(c)
+            makers = {"copy.copy": copy.copy, "copy.deepcopy": copy.deepcopy, "pickle": lambda x: pickle.loads(pickle.dumps(x)),
+                      "blocks moved to a new header": None}
+            for how, mk in makers.items():
+                ncopies += 1
+                try:
+                    if mk is None:
+                        h2 = tr31.Header(v2, h.key_usage, h.algorithm, h.mode_of_use, h.version_num, h.exportability)
+                        h2.blocks = h.blocks
+                    else:
+                        h2 = mk(h)
+                        h2.version_id = v2
+                    fresh = rebuilt(h2)
+                    got = (str(h2), len(tr31.wrap(c["kbpk"], h2, c["key"])))
+                    want = (str(fresh), len(tr31.wrap(c["kbpk"], fresh, c["key"])))
+                except Exception as e:  # noqa: BLE001
+                    got, want = ("exception", repr(e)[:120]), ("no exception", "")
+                if got != want:
+                    viol.append({"what": "a copied header (%s), switched from version %s to %s, does not serialise like a header built from scratch with the same values" % (how, v1, v2),
+                                 "input": {"hdr16": c["hdr16"], "blocks": [[b[0], len(b[1])] for b in c["blocks"]], "how": how, "to_version": v2},
+                                 "expected": [str(x)[:100] for x in want], "observed": [str(x)[:100] for x in got]})
+    dist["header_copies"] = ncopies
     # the whole mapping API of Blocks against Model/BlocksApi.v (api_run), outcome by outcome, plus the invariant
     from harness.props import blocks_api
     dist["mapping_api_sequences"] = blocks_api.check(ctx, viol, diffs, dist)
